@@ -1941,7 +1941,7 @@ namespace avel {
     template<>
     AVEL_FINL void store<vec16x8u::width>(std::int8_t* ptr, vec16x8i v) {
         #if defined(AVEL_SSE2)
-        _mm_store_si128(reinterpret_cast<__m128i*>(ptr), decay(v));
+        _mm_storeu_si128(reinterpret_cast<__m128i*>(ptr), decay(v));
         #endif
 
         #if defined(AVEL_NEON)
